@@ -148,6 +148,43 @@ SpecialLaws(h) ==
     /\ (IsFinite(h) /\ Mant(h) * 5 < 2048 /\ Exp(h) < 3 =>
             Hypot(Mul(h, FromInt(3)), Mul(h, FromInt(4))) = Mul(Fabs(h), FromInt(5)))
 
+(* cbrt verified by cubing: the rounding boundaries of r = Cbrt(h) bracket h.        *)
+(* r = Mr*2^Er; boundaries (2Mr -+ 1)*2^(Er-1); cubes compared at the exponent 3Er-3. *)
+CbrtLaw(h) ==
+    IF IsNaN(h) \/ IsInf(h) \/ IsZero(h) THEN SameH(Cbrt(h), h)
+    ELSE LET r  == Cbrt(h)
+             Mr == NMant(r)  Er == NExp(r)
+             sh == NExp(h) - (3 * Er - 3)
+             H  == WShl(WFromNat(NMant(h)), sh)
+             ce == CbrtExact(h)
+         IN  /\ IsNormal(r) /\ SignOf(r) = SignOf(h)
+             /\ sh >= 1 /\ sh <= 40
+             /\ WCmp(WCube(2 * Mr - 1), H) < 0             \* a tie is impossible: an odd cube against an even number
+             /\ WCmp(H, WCube(2 * Mr + 1)) < 0
+             /\ (ce.exact => r = RoundPack(SignOf(h), ce.root, ce.e, FALSE))
+             /\ Cbrt(Neg(h)) = Neg(r)
+
+(* 2-3-6-7: 4 + 9 + 36 = 49 *)
+Hypot3Law(h) ==
+    /\ (IsFinite(h) /\ Mant(h) * 7 < 2048 /\ Exp(h) < 3 =>
+            HypotFinite3(Mul(h, FromInt(2)), Mul(h, FromInt(6)), Mul(h, FromInt(3))) = Mul(Fabs(h), FromInt(7)))
+    /\ (IsFinite(h) => HypotFinite3(h, PosZero, NegZero) = Fabs(h) /\ HypotFinite3(NegZero, h, PosZero) = Fabs(h))
+    /\ Hypot3OK(h, PosInf, QNaN, PosInf) /\ Hypot3OK(h, PosInf, QNaN, QNaN)
+    /\ (IsFinite(h) => Hypot3OK(h, NegInf, One, PosInf))
+
+(* the numeric_limits parameters follow from the encoding *)
+LimitsLaw ==
+    /\ LimDigits = 11 /\ LimDigits10 = 3 /\ LimMaxDigits10 = 5
+    /\ LimMinExp = -13 /\ LimMaxExp = 16 /\ LimMinExp10 = -4 /\ LimMaxExp10 = 4
+    /\ LimMax = MaxFinite /\ LimLowest = 64511 /\ LimMin = 1024 /\ LimDenormMin = 1
+    /\ LimEpsilon = 5120 /\ LimRoundError = HalfC
+    /\ Ldexp(One, LimMinExp - 1) = LimMin /\ Ldexp(One, 1 - LimDigits) = LimEpsilon
+    /\ IntMag(LimMax, "trunc") = 65504
+    /\ Add(LimMax, Ldexp(One, LimMaxExp - 1 - LimDigits)) = PosInf              \* max + half an ulp: the tie goes to the even neighbour 2^16
+    /\ Add(LimMax, NextDown(Ldexp(One, LimMaxExp - 1 - LimDigits))) = LimMax
+    /\ IsQuietNaN(QNaN) /\ ~IsSignallingNaN(QNaN) /\ IsSignallingNaN(32000)
+ASSUME LimitsLaw
+
 (* ---- binary laws ---------------------------------------------------------- *)
 (* fmod / remainder / remquo against TLA+'s own integer arithmetic on the values, *)
 (* for integer-valued operands (all halves >= 1024 in magnitude are integers)      *)
@@ -219,7 +256,12 @@ MinMaxHypotLaws(a, b) ==
           /\ (~Unordered(a, b) => Ge(Hypot(a, b), Fabs(a)) /\ Ge(Hypot(a, b), Fabs(b)))
           /\ (IsFinite(a) /\ IsFinite(b) => Le(Hypot(a, b), Add(Fabs(a), Fabs(b))))
           \* against Sqrt(Fma) when the sum of squares is exact in binary16 terms: |b| = |a| => hypot = |a|*sqrt(2) = Sqrt(2a^2) if 2a^2 exact
-          /\ (IsFinite(a) /\ Mant(a) % 64 = 0 /\ ExpOf(a) > 8 /\ ExpOf(a) < 22 => Hypot(a, a) = Sqrt(Ldexp(Mul(a, a), 1))))
+          /\ (IsFinite(a) /\ Mant(a) % 64 = 0 /\ ExpOf(a) > 8 /\ ExpOf(a) < 22 => Hypot(a, a) = Sqrt(Ldexp(Mul(a, a), 1)))
+          \* the general wide-radicand route (used for three arguments) agrees with the two-argument definition
+          /\ SameH(Hypot2ViaWide(a, b), Hypot(a, b))
+          /\ (IsFinite(a) /\ IsFinite(b) =>
+                /\ HypotFinite3(a, b, b) = HypotFinite3(b, a, Neg(b)) /\ HypotFinite3(a, b, b) = HypotFinite3(b, b, a)
+                /\ Ge(HypotFinite3(a, b, One), Hypot(a, b)) /\ Ge(HypotFinite3(a, b, One), One)))
 
 (* RoundPack is monotone in m, with and without sticky, at every exponent that matters: *)
 (* m = x (16 bits) and m + 1/2 -+ epsilon at the exponents -40..7                        *)
@@ -237,7 +279,7 @@ RoundPackMonotone(m, e) ==
 Sel(h) == h % Stride = 0 \/ FracOf(h) \in {0, 1, 2, 511, 512, 513, 1022, 1023}
 
 Unary08(h) == DecodeEncode(h) /\ FloatRoundTrip(h) /\ MidpointLaw(h) /\ AddLaws1(h) /\ MulDivLaws1(h) /\ SqrtLaw(h)
-Unary09(h) == RoundLaws(h) /\ ManipLaws(h) /\ SpecialLaws(h)
+Unary09(h) == RoundLaws(h) /\ ManipLaws(h) /\ SpecialLaws(h) /\ CbrtLaw(h) /\ Hypot3Law(h)
 
 (* C08: conversions, + - * / fma sqrt, comparisons *)
 Laws08 ==
